@@ -2101,11 +2101,18 @@ class FlagsEnum(Adapter):
 
     def _emitseq(self, ksy, bitwise):
         bitstotal = self.subcon.sizeof() * 8
-        seq = []
+        seq = [None] * bitstotal
         for i in range(bitstotal):
             value = 1<<i
             name = self.reverseflags.get(value, "unknown_%s" % i)
-            seq.append(dict(id=name, type="b1", doc=hex(value), _construct_render="Flag"))
+            # KSY bit fields are read most significant bit first, byte by byte: place each flag where its bit is on the wire
+            try:
+                data = self.subcon.build(value)
+            except ConstructError:
+                data = self.subcon.build(value - (1 << bitstotal))
+            byteindex = [n for n,b in enumerate(data) if b][0]
+            bitindex = 8 - data[byteindex].bit_length()
+            seq[byteindex*8 + bitindex] = dict(id=name, type="b1", doc=hex(value), _construct_render="Flag")
         return seq
 
 
